@@ -27,13 +27,16 @@ def sequences(ops):
     return out
 
 
+HBIN = [None]   # harness binary used by this check run (set in check_property)
+
+
 def run_pair(mode, ops_lines, work, tag, go_env=None, timeout=3600):
     """Run Go and the model on the given op lines; returns (bad, go_lines, lean_lines, crash_note)."""
     opsp = os.path.join(work, f"{tag}.ops")
     with open(opsp, "w") as f:
         f.write("\n".join(ops_lines) + ("\n" if ops_lines else ""))
     gop, lp = os.path.join(work, f"{tag}.go"), os.path.join(work, f"{tag}.lean")
-    rc, out = core.run_go(mode, opsp, gop, env=go_env, timeout=timeout)
+    rc, out = core.run_go(mode, opsp, gop, env=go_env, timeout=timeout, binary=HBIN[0])
     note = None
     if rc != 0:
         note = f"harness exec exited {rc}: {out[-1500:]}"
@@ -89,7 +92,11 @@ def check_property(prop, cfg, tier, seed, replay=None):
 
     # 1-3: regenerate, build, audit (under the shared build lock)
     with core.Lock():
+        wanted = cfg.get("regen", [])
         for name, ok, out in core.regen(log):
+            # charged only for the regenerated items this property depends on (exact name, or prefix ending in ':')
+            if not any(name == w or (w.endswith(":") and name.startswith(w)) or name == w.split(":")[0] + ":build" for w in wanted):
+                continue
             obligations.append(f"regen:{name}")
             if ok: discharged.append(f"regen:{name}")
             else: broken.append(dict(what=f"regen:{name}", detail=out[-1500:]))
@@ -125,7 +132,8 @@ def check_property(prop, cfg, tier, seed, replay=None):
             obligations.append("leanchecker " + cfg["module"])
             if rc == 0: discharged.append(obligations[-1])
             else: broken.append(dict(what="leanchecker", detail=out[-1500:]))
-        hok, hout = core.build_harness(log)
+        hok, hout, hbin = core.build_harness(log, cfg.get("components"), prop)
+        HBIN[0] = hbin
         if not hok:
             broken.append(dict(what="harness build (go build -tags verif against /repo)", detail=hout[-1500:]))
 
@@ -137,7 +145,7 @@ def check_property(prop, cfg, tier, seed, replay=None):
             mode, stateful = m["name"], m.get("stateful", False)
             opsp, statp = os.path.join(work, f"{mode}.ops"), os.path.join(work, f"{mode}.stats.json")
             corpus = os.path.join(core.VERIF, "corpus", f"{mode}.ops")
-            rc, out = core.sh([core.HARNESS, "gen", mode, "-seed", str(seed), "-tier", tier, "-out", opsp, "-stats", statp],
+            rc, out = core.sh([HBIN[0], "gen", mode, "-seed", str(seed), "-tier", tier, "-out", opsp, "-stats", statp],
                               timeout=3600)
             if rc != 0:
                 broken.append(dict(what=f"harness gen {mode}", detail=out[-1500:])); continue
@@ -254,7 +262,8 @@ def do_replay(prop, cfg, path, work, log):
         print("replay: this file names proof obligations / ties that no longer check; re-run ./check", prop)
         return 1
     with core.Lock():
-        core.regen(log); core.lake_build(["zmodel"], log); core.build_harness(log)
+        core.regen(log); core.lake_build(["zmodel"], log)
+        _, _, HBIN[0] = core.build_harness(log, cfg.get("components"), prop)
     bad, go, lean, note = run_pair(payload["mode"], payload["ops"], work, "replay")
     for i, op in enumerate(payload["ops"]):
         print(f"{op}\n    go:    {go[i] if i < len(go) else None}\n    model: {lean[i] if i < len(lean) else None}")
